@@ -1593,15 +1593,31 @@ impl AnnotationStore {
                 (Selector::DataSetSelector(dataset), Selector::DataSetSelector(dataset2)) => {
                     dataset.cmp(dataset2)
                 }
-                //some canonical ordering for selectors
+                //some canonical ordering for selectors: text first, then resources, datasets,
+                //annotations as a whole, keys and data. The order must be total (and consistent,
+                //selectors with text sort together) for any mix of subselectors
                 (Selector::TextSelector(..), _) => Ordering::Less,
                 (_, Selector::TextSelector(..)) => Ordering::Greater,
+                (Selector::AnnotationSelector(_, Some(_)), _) => Ordering::Less,
+                (_, Selector::AnnotationSelector(_, Some(_))) => Ordering::Greater,
                 (Selector::ResourceSelector(..), _) => Ordering::Less,
                 (_, Selector::ResourceSelector(..)) => Ordering::Greater,
                 (Selector::DataSetSelector(..), _) => Ordering::Less,
                 (_, Selector::DataSetSelector(..)) => Ordering::Greater,
-                // catch-all for anything that shouldn't occur at this point anyway:
-                (a, b) => panic!("Unable to compare order for selector {:?} vs {:?}", a, b),
+                (Selector::AnnotationSelector(..), _) => Ordering::Less,
+                (_, Selector::AnnotationSelector(..)) => Ordering::Greater,
+                (
+                    Selector::DataKeySelector(dataset, key),
+                    Selector::DataKeySelector(dataset2, key2),
+                ) => (dataset, key).cmp(&(dataset2, key2)),
+                (Selector::DataKeySelector(..), _) => Ordering::Less,
+                (_, Selector::DataKeySelector(..)) => Ordering::Greater,
+                (
+                    Selector::AnnotationDataSelector(dataset, data),
+                    Selector::AnnotationDataSelector(dataset2, data2),
+                ) => (dataset, data).cmp(&(dataset2, data2)),
+                // complex and internal ranged selectors can not occur at this point, they have no particular order:
+                _ => Ordering::Equal,
             });
         }
 
